@@ -243,6 +243,25 @@ impl TreeGen {
                     }
                     keys.push(k);
                 }
+                // cell deps must be live (and not consumed earlier in this block), header deps on
+                // this branch
+                for dep in tx.cell_deps_iter() {
+                    let op = dep.out_point();
+                    let idx: u32 = op.index().into();
+                    let k = (h(&op.tx_hash()), idx);
+                    let live = st.cells.contains_key(&k) || created.contains(&k.0);
+                    if !live || spent.contains(&k) {
+                        ok = false;
+                    }
+                }
+                for hd in tx.header_deps_iter() {
+                    if !st.chain.contains(&h(&hd)) {
+                        ok = false;
+                    }
+                }
+                // an input must not be a cell some already chosen tx depends on... (fine for
+                // validity: deps are resolved before the later spend) — but a later tx must not
+                // depend on a cell spent by an earlier chosen one (checked above via `spent`)
                 if ok {
                     for k in keys {
                         spent.insert(k);
@@ -405,6 +424,11 @@ impl TreeGen {
     /// Generate one valid block on top of `parent` (B is moved there), feed it to B, register
     /// it in the model. Returns its hash.
     pub fn extend(&mut self, parent: &H) -> H {
+        self.extend_ex(parent, &[])
+    }
+
+    /// Like `extend`, additionally proposing the given (externally known) transactions.
+    pub fn extend_ex(&mut self, parent: &H, extra: &[TransactionView]) -> H {
         self.goto(parent);
         let prec = self.rc.get(parent).clone();
         let n = prec.number + 1;
@@ -418,6 +442,14 @@ impl TreeGen {
         for _ in 0..k {
             if let Some(tx) = self.new_tx(parent, &new_txs) {
                 new_txs.push(tx);
+            }
+        }
+        {
+            let st = self.rc.replay(parent);
+            for t in extra {
+                if !st.tx_info.contains_key(&h(&t.hash())) && !new_txs.iter().any(|x| x.hash() == t.hash()) {
+                    new_txs.push(t.clone());
+                }
             }
         }
         let mut proposals: Vec<ProposalShortId> =
@@ -499,6 +531,39 @@ impl TreeGen {
         }
         self.stat("valid_blocks");
         hash
+    }
+
+    /// Register a valid block built elsewhere (e.g. mined from the node-under-test's block
+    /// template) on top of B's current tip: B must accept it. `known` maps proposal ids to
+    /// transaction bodies the generator knows, so that later blocks can commit them.
+    pub fn adopt(&mut self, block: &BlockView, known: &dyn Fn(&ProposalShortId) -> Option<TransactionView>) -> Result<H, String> {
+        let parent = h(&block.parent_hash());
+        if parent != self.tip() {
+            return Err("adopt: block does not extend the builder's tip".into());
+        }
+        let epoch = {
+            let snap = self.b.shared.snapshot();
+            use ckb_store::ChainStore;
+            snap.consensus()
+                .next_epoch_ext(snap.tip_header(), &snap.borrow_as_data_loader())
+                .unwrap()
+                .epoch()
+        };
+        match self.b.process(block) {
+            Ok(true) => {}
+            other => return Err(format!("{other:?}")),
+        }
+        let hash = self.rc.add(block, true, None, Some(epoch));
+        let mut proposed = vec![];
+        for id in block.union_proposal_ids_iter() {
+            if let Some(tx) = known(&id) {
+                proposed.push(tx);
+            }
+        }
+        self.info.insert(hash, NodeInfo { proposed });
+        self.order.push(hash);
+        self.stat("adopted_blocks");
+        Ok(hash)
     }
 
     /// Generate the whole tree.
